@@ -5,7 +5,7 @@ CONSTANTS
   MaxP = 2
   MaxM = 1
   AllowArm = FALSE
-  Patched = FALSE
+  Patched = TRUE
   MaxOps = 6
   Mode = "gate"
 SPECIFICATION MCSpec
